@@ -513,6 +513,33 @@ pub fn gen_spline(rng: &mut Rng) -> SplineSpec {
             preset_share: false,
         };
     }
+    if rng.chance(0.04) {
+        // an equally spaced grid built by repeated addition of an awkward step, starting
+        // below zero and crossing it (the knots are then NOT an exact arithmetic progression)
+        let k = rng.usize_in(2, 5);
+        let h = awkward(rng, 0.05, 2.0, false);
+        let m = rng.usize_in(1, 8);
+        let len = k + rng.usize_in(1, 10);
+        let mut x = -(m as f64) * h;
+        if rng.chance(0.5) {
+            x = 0.0;
+            for _ in 0..m {
+                x -= h;
+            }
+        }
+        let mut t = Vec::with_capacity(len);
+        for _ in 0..len {
+            t.push(x);
+            x += h;
+        }
+        return SplineSpec {
+            kind: rng.below(3) as u8,
+            k,
+            t: t.into_iter().map(Fx::new).collect(),
+            preset: None,
+            preset_share: false,
+        };
+    }
     let k = rng.usize_in(2, 5);
     let interior = if rng.chance(0.05) {
         rng.usize_in(5, 40)
